@@ -309,7 +309,7 @@ def degree_histogram(G, t=None):
         (Order(number_of_edges))
         """
     counts = Counter(d for n, d in G.degree(t=t).items())
-    return [counts.get(i, 0) for i in range(max(counts) + 1)]
+    return [counts.get(i, 0) for i in range(max(counts) + 1 if counts else 0)]
 
 
 def is_directed(G):
